@@ -21,6 +21,7 @@ LEVEL_TEXT = ("Phase-structure analysis of the lazy interpreter (MIR): (E6.p) al
 LEVEL_NOTE = ("Not decided: equality of results over all permutations (a schedule-quantified behavioural statement).  Node numbering "
               "legitimately depends on order and is outside the property.")
 LEVEL_TEXT += (" (C06.C) the checker context holds no interior mutability, so the checker's verdict cannot depend on stanza order either.")
+LEVEL_TEXT += (' (E5.keep) deferred work is never filtered, de-duplicated, truncated or reordered outside the listed sites; E3.l includes the must-pass-through form (no successful checker path avoids the locality test of an eagerly evaluated source).')
 
 
 def lazy_routing(prog, rep):
